@@ -70,7 +70,11 @@ class Enc:
         if isinstance(x, list): return "(VList [%s])" % "; ".join(self.val(v, depth + 1) for v in x)
         if isinstance(x, tuple): return "(VTuple [%s])" % "; ".join(self.val(v, depth + 1) for v in x)
         if isinstance(x, dict): return "(VDict [%s])" % "; ".join("(%s, %s)" % (self.val(k, depth + 1), self.val(v, depth + 1)) for k, v in x.items())
+        if isinstance(x, Proxy):
+            return "(VObj %s [])" % q("<proxy:%s>" % x._px_name)
         t = type(x)
+        if hasattr(x, "unit") and hasattr(x, "value") and t.__module__.startswith("astropy"):
+            return "(VObj \"<Quantity>\" [(\"value\", %s)])" % self.val(x.value, depth + 1)
         if t.__module__.startswith("hierarc") and hasattr(x, "__dict__"):
             self.classes[t.__name__] = t
             return "(VObj %s [%s])" % (q(t.__name__), "; ".join("(%s, %s)" % (q(k), self.val(v, depth + 1)) for k, v in vars(x).items()))
@@ -79,6 +83,48 @@ class Enc:
 
 
 CONSTS = {"const.c": 299792458.0}
+
+
+class Proxy(object):
+    """stands for an external object (astropy cosmology, scipy interpolator, KDE, ...): every method call is forwarded and recorded;
+    on the Coq side the object is opaque and each recorded method is a replay oracle"""
+    def __init__(self, obj, name, log):
+        object.__setattr__(self, "_px_obj", obj); object.__setattr__(self, "_px_name", name); object.__setattr__(self, "_px_log", log)
+    def __getattr__(self, a):
+        target = getattr(self._px_obj, a)
+        if not callable(target):
+            return target
+        def call(*args, **kw):
+            r = target(*args, **kw)
+            self._px_log.append(("%s.%s" % (self._px_name, a), list(args) + list(kw.values()), r, self._px_name, a))
+            return r
+        return call
+    def __call__(self, *args, **kw):
+        r = self._px_obj(*args, **kw)
+        self._px_log.append(("%s.__call__" % self._px_name, list(args) + list(kw.values()), r, self._px_name, "__call__"))
+        return r
+
+
+class FunPatch:
+    """replace module-level callables (np.linalg.inv, ...) by recording wrappers for the duration of the real run; only calls made
+    from hierarc source files are recorded (libraries calling each other are invisible to PySem)"""
+    def __init__(self, specs, log):
+        self.specs, self.log, self.saved = specs, log, []
+    def __enter__(self):
+        for tag, owner, attr in self.specs:
+            orig = getattr(owner, attr)
+            self.saved.append((owner, attr, orig))
+            def wrap(*args, __orig=orig, __tag=tag, **kw):
+                r = __orig(*args, **kw)
+                fr = sys._getframe(1)
+                if "hierarc" in fr.f_code.co_filename:
+                    self.log.append((__tag, list(args) + list(kw.values()), r, None, None))
+                return r
+            setattr(owner, attr, wrap)
+        return self
+    def __exit__(self, *a):
+        for owner, attr, orig in self.saved:
+            setattr(owner, attr, orig)
 
 
 def load_spec(builddir):
@@ -155,7 +201,9 @@ def make_lemma(idx, case, items):
     args = "[%s]" % "; ".join(enc.val(a) for a in case.get("args", []))
     kws = "[%s]" % "; ".join("(%s, %s)" % (q(k), enc.val(v)) for k, v in case.get("kwargs", {}).items())
     zs = case.get("draws", [])
-    with NormalPatch(zs) as npatch:
+    calls = case.get("calls_log")
+    if calls is None: calls = []
+    with NormalPatch(zs) as npatch, FunPatch(case.get("patch", []), calls):
         try:
             f = getattr(obj, fn) if obj is not None else case["callable"]
             out = f(*case.get("args", []), **case.get("kwargs", {}))
@@ -168,16 +216,31 @@ def make_lemma(idx, case, items):
     if post and exc is None:
         out = post(obj, out)
     tol = case.get("tol", 1e-9)
-    mk = "(fun ds => call G %d (CFun %s) %s %s %s (World (stream [%s]) 0 [] ds []))" % (
-        case.get("fuel", 300), src_name(cls, fn), selfv, args, kws, "; ".join(coq_real(z) for z in zs))
+    # replay tables: per tag the results in call order; function tags go to the globals, proxy methods to the proxy's class
+    by_tag, order = {}, []
+    for tag, cargs, r, pname, meth in calls:
+        by_tag.setdefault(tag, dict(res=[], pname=pname, meth=meth))["res"].append(enc.val(r))
+        order.append("(%s, [%s])" % (q(tag), "; ".join(enc.val(x) for x in cargs)))
+    gt_case, mt_case = [], {}
+    for tag, d in by_tag.items():
+        if d["pname"] is None:
+            gt_case.append("(%s, replay %s [%s])" % (q(tag), q(tag), "; ".join(d["res"])))
+        else:
+            mt_case.setdefault("<proxy:%s>" % d["pname"], []).append("(%s, replay_m %s [%s])" % (q(d["meth"]), q(tag), "; ".join(d["res"])))
+    genv = "(mk_fenv ([%s] ++ MT) ([%s] ++ GT))" % ("; ".join("(%s, [%s])" % (q(c), "; ".join(r)) for c, r in mt_case.items()), "; ".join(gt_case))
+    mk = "(fun ds => call %s %d (CFun %s) %s %s %s (World (stream [%s]) 0 [] ds []))" % (
+        genv, case.get("fuel", 300), src_name(cls, fn), selfv, args, kws, "; ".join(coq_real(z) for z in zs))
     if exc is not None:
         stmt = "corr_exc %s %s" % (mk, q(exc))
         obs = "raises " + exc
+    elif calls:
+        stmt = "corr_ok_log %s %s %d %s [%s]" % (mk, enc.val(out), npatch.k, coq_real(tol), "; ".join(order))
+        obs = repr(out)[:200]
     else:
         stmt = "corr_ok %s %s %d %s" % (mk, enc.val(out), npatch.k, coq_real(tol))
         obs = repr(out)[:200]
     return dict(name="case_%04d" % idx, label=case["name"], stmt=stmt, classes=enc.classes, opaque=enc.opaque, observed=obs,
-                extra_globals=case.get("extra_globals", []))
+                extra_globals=case.get("extra_globals", []), ncalls=len(calls))
 
 
 def write_file(path, pid, lemmas, mt, gt):
@@ -185,7 +248,7 @@ def write_file(path, pid, lemmas, mt, gt):
         f.write("From Coq Require Import Reals ZArith String List Bool Lra.\nFrom Interval Require Import Tactic.\n"
                 "Require Import Py.PyAst Py.PyVal Py.PySem Py.XLemmas Py.Tactics Py.Corr.\nRequire Import %s.Src.\n"
                 "Import ListNotations.\nOpen Scope string_scope.\nOpen Scope R_scope.\n" % pid)
-        f.write("Definition G : fenv := mk_fenv\n  %s\n  %s.\n" % (mt, gt))
+        f.write("Definition MT : list (string * list (string * callee)) :=\n  %s.\nDefinition GT : list (string * callee) :=\n  %s.\n" % (mt, gt))
         for l in lemmas:
             f.write("(* %s : observed %s *)\nLemma %s : %s.\nProof. corr_case. Qed.\n" % (l["label"], l["observed"].replace("*)", "* )").replace("(*", "( *"), l["name"], l["stmt"]))
 
